@@ -223,7 +223,20 @@ def run(prop, tier, seed):
                           "committed writers of one entity or duplicate commit epochs (FcwHistory.tla)", {"stress_round": rnd, "script": []}, tag="stress")
         else:
             total_events += rounds
-        rep.add(concurrent_commit_rounds=rounds)
+        # free-running begin / commit / gc loops (begin races with another thread's commit + clean-up)
+        free_tx = 0
+        for k in range(2 if tier == "quick" else 8):
+            fp = os.path.join(wd, f"free-{k}.ndjson")
+            _, out, _ = V.gv(["txstress", "--free", 30000 if tier == "quick" else 150000, "--threads", 3 + k % 2, "--out", fp], timeout=1800)
+            res = V.validate_trace(os.path.join(SPECDIR, "FcwHistory.tla"), fcfg, fp, name=f"C03-free-{k}")
+            if not res["accepted"]:
+                w = V.read_ndjson(fp)[res["index"] - 1]
+                bad = [(a, b) for a, b in zip(w["txs"], w["txs"][1:]) if b["s"] < a["c"]]
+                rep.violation(f"free-running begin/commit/gc threads: two overlapping transactions that wrote one entity both committed, e.g. {json.dumps(bad[:1])} (FcwHistory.tla)",
+                              {"stress_round": w, "script": []}, tag="free")
+                break
+            free_tx += json.loads(out.strip().splitlines()[-1])["committed"]
+        rep.add(concurrent_commit_rounds=rounds, free_running_committed_transactions=free_tx)
 
     rep.add(traces_validated_against_impl=total_traces, events_validated=total_events,
             evaluations=total_traces, distinct_nontrivial=nontriv,
